@@ -86,6 +86,45 @@ class Prop:
         return s
 
 
+class ExhaustiveProp(Prop):
+    """A property function run over a completely enumerated finite space (thorough tier; a bounded
+    sub-space in the quick tier). `enumerate_cases(tier)` yields JSON specs in a fixed order; shard i of n
+    takes every n-th case. No shrinking: the smallest failing spec per assertion name is reported."""
+
+    def __init__(self, name, enumerate_cases, fn, doc=""):
+        super().__init__(name, None, fn, quick=0, thorough=0, doc=doc)
+        self.enumerate_cases = enumerate_cases
+
+    def runner(self, prop, ctx, n, seedval, tier):
+        import json
+        found = {}
+        shard, nshards = getattr(ctx, "shard", 0), getattr(ctx, "nshards", 1)
+        count = 0
+        for idx, spec in enumerate(self.enumerate_cases(tier)):
+            if idx % nshards != shard:
+                continue
+            count += 1
+            ctx.begin(self.name, spec)
+            try:
+                self.fn(spec, ctx)
+            except Violation as v:
+                size = len(canon(spec))
+                if v.name not in found or size < found[v.name][0]:
+                    found[v.name] = (size, {"prop": self.name, "assertion": v.name, "message": v.msg,
+                                            "spec": json.loads(canon(spec))})
+                if len(found) >= 8:
+                    ctx.disabled.add(v.name)
+                ctx.end(ok=False)
+                continue
+            except Inconclusive:
+                ctx.counters["inconclusive"] += 1
+            except Rejected:
+                ctx.counters["rejected"] += 1
+            ctx.end()
+        ctx.counters[f"{self.name}|exhaustive_cases_this_shard"] += count
+        return [v for _, v in found.values()]
+
+
 class Ctx:
     def __init__(self, pid, known_findings=(), known_predicates=None, tier="quick"):
         self.pid = pid
